@@ -3,6 +3,8 @@ C15 — Calendar periods tile the calendar exactly.
 Property theorems only (helper lemmas: KlogV/Lemmas/Calendar.lean).
 -/
 import KlogV.Lemmas.Calendar
+import KlogV.Lemmas.Patterns
+import KlogV.Props.Tables
 namespace KlogV.C15
 
 /-- The day after a valid date has the next day number. -/
@@ -119,6 +121,50 @@ theorem same_period_iff_key (k : PeriodKind) (x y : Date) (hx : x.valid = true) 
 theorem pattern_year (y : Nat) (hy : y ≤ 9999) :
     periodFromPattern (pad4 y) = .ok ⟨⟨y, 1, 1, true⟩, ⟨y, 12, 31, true⟩⟩ :=
   KlogV.pattern_year y hy
+
+theorem pattern_month (y m : Nat) (hy : y ≤ 9999) (hm : 1 ≤ m ∧ m ≤ 12) :
+    periodFromPattern (pad4 y ++ ['-'] ++ pad2 m) = .ok ⟨⟨y, m, 1, true⟩, ⟨y, m, daysIn y m, true⟩⟩ :=
+  KlogV.pattern_month y m hy hm
+
+theorem pattern_month_rejected (y m : Nat) (hy : y ≤ 9999) (hm : m = 0 ∨ (13 ≤ m ∧ m ≤ 99)) :
+    periodFromPattern (pad4 y ++ ['-'] ++ pad2 m) = .err :=
+  KlogV.pattern_month_rejected y m hy hm
+
+theorem pattern_quarter (y q : Nat) (hy : y ≤ 9999) (hq : 1 ≤ q ∧ q ≤ 4) :
+    periodFromPattern (pad4 y ++ "-Q".toList ++ [digitChar q]) =
+      .ok ⟨⟨y, 3 * q - 2, 1, true⟩, ⟨y, 3 * q, daysIn y (3 * q), true⟩⟩ :=
+  KlogV.pattern_quarter y q hy hq
+
+theorem pattern_quarter_rejected (y q : Nat) (hy : y ≤ 9999) (hq : q = 0 ∨ (5 ≤ q ∧ q ≤ 9)) :
+    periodFromPattern (pad4 y ++ "-Q".toList ++ [digitChar q]) = .err :=
+  KlogV.pattern_quarter_rejected y q hy hq
+
+/-- the two notations of a week number: `W07` and `W7` -/
+abbrev WeekDigits (w : Nat) (ws : List Char) : Prop := KlogV.WeekDigits w ws
+
+/-- An accepted week pattern denotes Monday … Sunday of exactly ISO week `w` of year `y`. -/
+theorem pattern_week (y w : Nat) (ws : List Char) (hy : y ≤ 9999) (hw : w ≤ 99) (hws : WeekDigits w ws) (p : Period)
+    (h : periodFromPattern (pad4 y ++ "-W".toList ++ ws) = .ok p) :
+    p.since.valid = true ∧ p.until_.valid = true ∧ p.since.weekday = 1 ∧ dayNumber p.until_ = dayNumber p.since + 6 ∧
+      p.since.isoWeek = ((y : Int), w) ∧ p.until_.isoWeek = ((y : Int), w) :=
+  KlogV.pattern_week y w ws hy hw hws p h
+
+/-- Every ISO week that exists (of the years 0001–9998; the edges are D11) is accepted … -/
+theorem pattern_week_accepted (y w : Nat) (ws : List Char) (hy : 1 ≤ y ∧ y ≤ 9998) (hws : WeekDigits w ws)
+    (hex : ∃ x : Date, x.valid = true ∧ x.isoWeek = ((y : Int), w)) :
+    ∃ p, periodFromPattern (pad4 y ++ "-W".toList ++ ws) = .ok p :=
+  KlogV.pattern_week_accepted y w ws hy hws hex
+
+/-- … and every week that does not exist (W00, W53 of a 52-week year, W54 …) is rejected, not rolled over. -/
+theorem pattern_week_rejected (y w : Nat) (ws : List Char) (hy : 1 ≤ y ∧ y ≤ 9998) (hw : w ≤ 99) (hws : WeekDigits w ws)
+    (hex : ¬ ∃ x : Date, x.valid = true ∧ x.isoWeek = ((y : Int), w)) :
+    periodFromPattern (pad4 y ++ "-W".toList ++ ws) = .err :=
+  KlogV.pattern_week_rejected y w ws hy hw hws hex
+
+/-- Whatever pattern is accepted denotes a whole year, month, quarter or week of a valid date. -/
+theorem pattern_sound (s : List Char) (p : Period) (h : periodFromPattern s = .ok p) :
+    ∃ x : Date, x.valid = true ∧ (p = yearPeriod x ∨ p = monthPeriod x ∨ p = quarterPeriod x ∨ weekPeriod x = some p) :=
+  KlogV.pattern_sound s p h
 
 example : periodFromPattern "2022-13".toList = .err ∧ periodFromPattern "2022-00".toList = .err ∧
     periodFromPattern "2022-Q5".toList = .err ∧ periodFromPattern "2022-Q0".toList = .err ∧
